@@ -12,6 +12,7 @@ import (
 	"bytes"
 	"encoding/json"
 	"fmt"
+	"regexp"
 	"strings"
 
 	lang "github.com/alligator/jqawk/src"
@@ -27,6 +28,16 @@ type CallCase struct {
 	LoopKind string   `json:"loopkind"` // for | while | forin | match | matchblock | if
 	Ops      []CallOp `json:"ops"`
 	Chunk    int      `json:"chunk"` // elements per top-level array value (0: all in one)
+	// user functions that carry the name of a built-in function (bit 0: rec is
+	// called num, bit 1: setg is called json, bit 2: viaother is called printf):
+	// a declared function is a user function whatever its name
+	Builtins int `json:"builtins,omitempty"`
+}
+
+var builtinRenames = []struct{ re *regexp.Regexp; to string }{
+	{regexp.MustCompile(`\brec\(`), "num("},
+	{regexp.MustCompile(`\bsetg\(`), "json("},
+	{regexp.MustCompile(`\bviaother\(`), "printf("},
 }
 
 var callParams = []string{"pa", "pb", "pc"}
@@ -188,7 +199,13 @@ $.op == "exit" { print step, "bye"
 		sb.WriteString(", " + n + " is unknown")
 	}
 	sb.WriteString(" }\n")
-	return sb.String()
+	text := sb.String()
+	for i, r := range builtinRenames {
+		if c.Builtins&(1<<i) != 0 {
+			text = r.re.ReplaceAllString(text, r.to)
+		}
+	}
+	return text
 }
 
 func (c *CallCase) input() []byte {
@@ -785,6 +802,9 @@ func genCallCase(t *Tape, long bool) *CallCase {
 	case 2:
 		c.Chunk = 1000
 	}
+	if t.Chance(1, 4) {
+		c.Builtins = 1 + t.Draw(7)
+	}
 	return c
 }
 
@@ -822,6 +842,16 @@ func registerC08() {
 				New:         func() any { return &CallCase{} },
 				ShrinkEvals: 60,
 				Simplify:    simplifyCall,
+				NoRecheck:   true,
+			},
+			{
+				Name:        "wide-scopes",
+				Count:       func(tier string) int { return map[string]int{"quick": 24, "thorough": 1200}[tier] },
+				Gen:         func(i int, t *Tape, tier string) any { return genWideCase(t, tier) },
+				Run:         func(c any, keep bool) Outcome { return runWideCase(c.(*WideCase), keep) },
+				New:         func() any { return &WideCase{} },
+				ShrinkEvals: 200,
+				Simplify:    simplifyWide,
 				NoRecheck:   true,
 			},
 		},
